@@ -1,6 +1,8 @@
 package actionlint
 
 import (
+	"bufio"
+	"bytes"
 	"errors"
 	"fmt"
 	"math"
@@ -1455,6 +1457,19 @@ func handleYAMLError(err error) []*Error {
 	return []*Error{yamlErr(err.Error())}
 }
 
+// splitYAMLLines splits the source into lines at the line breaks which the YAML parser counts for
+// line numbers (see scanYAMLLines).
+func splitYAMLLines(src []byte) []string {
+	lines := []string{}
+	sc := bufio.NewScanner(bytes.NewReader(src))
+	sc.Buffer(nil, len(src)+1)
+	sc.Split(scanYAMLLines)
+	for sc.Scan() {
+		lines = append(lines, sc.Text())
+	}
+	return lines
+}
+
 // adjustScalarColumns moves the column of scalar nodes which have an anchor or an explicit tag
 // (`&a text`, `!!str text`) to the first character of the text. The YAML library puts the column
 // at the anchor or the tag, but positions in the scalar are calculated from where its text starts.
@@ -1498,7 +1513,7 @@ func Parse(b []byte) (*Workflow, []*Error) {
 	// Uncomment for checking YAML tree
 	// dumpYAML(&n, 0)
 
-	adjustScalarColumns(&n, strings.Split(string(b), "\n"))
+	adjustScalarColumns(&n, splitYAMLLines(b))
 
 	p := &parser{}
 	w := p.parse(&n)
